@@ -61,7 +61,9 @@ Proof. exact @insert_col_gen. Qed.
 Print Assumptions C11_insert_col_outcomes.
 
 (** whole histories with faults at any step - panicking iterators, lying lengths, element
-    destructors that panic during removals / clear ([HBomb]) - keep a valid array after
+    destructors that panic during removals / clear ([HBomb]), [Clone::clone] /
+    [Default::default] panicking at their k-th call inside init / fill / clone / clone_from /
+    new ([HFuse]) - keep a valid array after
     every step, so every later call starts from a state the crate's unchecked code may
     rely on *)
 Theorem C11_history_with_faults :
